@@ -266,7 +266,10 @@ var ProfileC06 = &Profile{
 	MultiMsg: true,
 	ID:       "C06", Name: "lending", MinBlocks: 5, MaxBlocks: 40, MaxTxs: 5, Spec: specLending, Check: CheckC06, PreBlock: vaultGov,
 	Weights: map[string]int{"stablestake.bond": 12, "stablestake.unbond": 8, "leveragelp.open": 14, "leveragelp.close": 10, "leveragelp.close_positions": 4,
-		"leveragelp.update_stop_loss": 2, "leveragelp.claim_rewards": 1, "oracle.feed_price": 8, "amm.swap_in": 4, "amm.join": 2, "amm.exit": 2, "masterchef.claim": 1},
+		"leveragelp.update_stop_loss": 2, "leveragelp.claim_rewards": 1, "oracle.feed_price": 8, "amm.swap_in": 4, "amm.join": 2, "amm.exit": 2, "masterchef.claim": 1,
+		// other modules' money flows around the vault: perpetual interest and funding revenue (collected and split by
+		// masterchef at the end of every block), plain transfers
+		"perpetual.open": 5, "perpetual.close": 3, "perpetual.close_positions": 1, "bank.send": 1},
 	Gaps: []time.Duration{time.Second, 5 * time.Second, 6 * time.Second, time.Hour + time.Second, 3 * time.Hour, 24*time.Hour + time.Second, 8 * 24 * time.Hour},
 	Rule: "history with >=1 leveragelp close (repay) after >=1h of accrual and >=1 bond/unbond while a loan is outstanding",
 	NonTrivial: func(h *History) bool {
